@@ -704,19 +704,7 @@ func checkC14Into(c *Ctx, prefix string) {
 			}
 			if k, iface, ok := p.driverCallee(fn); ok && k == DrvStmt && !iface {
 				c.Touch(f)
-				// receiver must be the result of Tx.StmtContext
-				sel, _ := call.Fun.(*ast.SelectorExpr)
-				viaStmtCtx := false
-				if sel != nil {
-					if rc, ok := unparen(sel.X).(*ast.CallExpr); ok {
-						if rfn, _ := typeutil.Callee(finfo, rc).(*types.Func); rfn != nil {
-							if rk, _, ok := p.driverCallee(rfn); ok && rk == DrvStmtCtx {
-								viaStmtCtx = true
-							}
-						}
-					}
-				}
-				rt.Check(viaStmtCtx, f.Name(), fn.Name()+" through Tx.StmtContext", call.Pos(), "statement re-bound to the transaction", "the cached statement is executed directly inside a transaction wrapper: it runs outside the transaction")
+				rt.Check(boundToTx(p, f, call), f.Name(), fn.Name()+" through Tx.StmtContext", call.Pos(), "statement re-bound to the transaction", "the cached statement is executed directly inside a transaction wrapper (on some path): it runs outside the transaction")
 			}
 		}
 	}
@@ -811,4 +799,59 @@ func siblingLocked(f *FuncSrc, info *types.Info, st ast.Stmt, la *lockAnalysis) 
 		}
 	}
 	return before && after
+}
+
+// boundToTx: the *sql.Stmt on which call executes is, on every path, the result of Tx.StmtContext -
+// directly, through a local, or through a helper of the repository all of whose returns are.
+func boundToTx(p *Program, f *FuncSrc, call *ast.CallExpr) bool {
+	info := f.Pkg.TypesInfo
+	sel, _ := call.Fun.(*ast.SelectorExpr)
+	if sel == nil {
+		return false
+	}
+	var isBound func(g *FuncSrc, e ast.Expr, depth int) bool
+	isBound = func(g *FuncSrc, e ast.Expr, depth int) bool {
+		if depth > 3 {
+			return false
+		}
+		ginfo := g.Pkg.TypesInfo
+		e = unparen(e)
+		if id, ok := e.(*ast.Ident); ok {
+			if def := resolveLocal(g, id); def != nil {
+				return isBound(g, def, depth+1)
+			}
+			return false
+		}
+		rc, ok := e.(*ast.CallExpr)
+		if !ok {
+			return false
+		}
+		rfn, _ := typeutil.Callee(ginfo, rc).(*types.Func)
+		if rfn == nil {
+			return false
+		}
+		if rk, _, ok := p.driverCallee(rfn); ok && rk == DrvStmtCtx {
+			return true
+		}
+		helper := p.SrcOpt(rfn)
+		if helper == nil {
+			return false
+		}
+		all, n := true, 0
+		ast.Inspect(helper.Body, func(x ast.Node) bool {
+			if _, ok := x.(*ast.FuncLit); ok {
+				return false
+			}
+			if rs, ok := x.(*ast.ReturnStmt); ok && len(rs.Results) >= 1 {
+				n++
+				if !isBound(helper, rs.Results[0], depth+1) {
+					all = false
+				}
+			}
+			return true
+		})
+		return all && n > 0
+	}
+	_ = info
+	return isBound(f, sel.X, 0)
 }
